@@ -271,3 +271,130 @@ def label_at(entries, t):
 
 def labelled_measure(entries):
     return sum((F(e) - F(s) for s, e, _ in entries), F(0))
+
+
+# ----------------------------------------------------------------------
+# set operations (all results are built from existing boundary floats: exact)
+# ----------------------------------------------------------------------
+def overlaps(x, y):
+    return min(x[1], y[1]) > max(x[0], y[0])
+
+
+def difference(a_entries, b_entries):
+    out = []
+    for s, e, l in a_entries:
+        cur = s
+        for bs, be, _ in b_entries:  # b sorted, disjoint
+            if be <= cur or bs >= e:
+                continue
+            if bs > cur:
+                out.append((cur, bs, l))
+            cur = max(cur, be)
+            if cur >= e:
+                break
+        if cur < e:
+            out.append((cur, e, l))
+    return out
+
+
+def intersection(a_entries, b_entries, demarcator="-"):
+    out = []
+    for s, e, l in a_entries:
+        for bs, be, bl in b_entries:
+            lo, hi = max(s, bs), min(e, be)
+            if lo < hi:
+                out.append((lo, hi, "%s%s%s" % (l, demarcator, bl)))
+    out.sort()
+    return out
+
+
+def merge_labels(a_entries, b_entries, demarcator=","):
+    out = []
+    for s, e, l in a_entries:
+        subs = [bl for bs, be, bl in b_entries if min(e, be) > max(s, bs)]
+        if subs:
+            out.append((s, e, "%s(%s)" % (l, demarcator.join(subs))))
+    return out
+
+
+def union_intervals(a_entries, b_entries):
+    """Connected components of positive-length overlap between A and B entries.
+    Returns list of (start, end, [member (start, end, label, origin), ...] in start order)."""
+    items = [(s, e, l, "A") for s, e, l in a_entries] + [(s, e, l, "B") for s, e, l in b_entries]
+    n = len(items)
+    parent = list(range(n))
+
+    def find(i):
+        while parent[i] != i:
+            parent[i] = parent[parent[i]]
+            i = parent[i]
+        return i
+
+    for i in range(n):
+        for j in range(i + 1, n):
+            if items[i][3] != items[j][3] and overlaps(items[i], items[j]):
+                parent[find(i)] = find(j)
+    comps = {}
+    for i in range(n):
+        comps.setdefault(find(i), []).append(items[i])
+    out = []
+    for members in comps.values():
+        members.sort(key=lambda m: (m[0], m[1], m[2]))
+        out.append((min(m[0] for m in members), max(m[1] for m in members), members))
+    out.sort(key=lambda c: (c[0], c[1]))
+    return out
+
+
+def union_label_ok(observed, members, sep="-"):
+    """observed label vs. members joined in start order; members with equal start may swap (D10)."""
+    exp = [m[2] for m in members]
+    if observed == sep.join(exp):
+        return True
+    if any(sep in x or x == "" for x in exp):
+        # ambiguous tokenisation: also accept the other order of an equal-start pair, spelled out
+        alts = _equal_start_permutations(members)
+        return any(observed == sep.join(a) for a in alts)
+    toks = observed.split(sep)
+    if len(toks) != len(exp):
+        return False
+    i = 0
+    while i < len(members):
+        j = i + 1
+        while j < len(members) and members[j][0] == members[i][0]:
+            j += 1
+        if sorted(toks[i:j]) != sorted(exp[i:j]):
+            return False
+        i = j
+    return True
+
+
+def _equal_start_permutations(members):
+    import itertools
+
+    groups = []
+    i = 0
+    while i < len(members):
+        j = i + 1
+        while j < len(members) and members[j][0] == members[i][0]:
+            j += 1
+        groups.append([m[2] for m in members[i:j]])
+        i = j
+    res = [[]]
+    for g in groups:
+        res = [r + list(p) for r in res for p in itertools.permutations(g)]
+    return res[:64]
+
+
+def union_points(a_entries, b_entries, sep="-"):
+    out = {}
+    order = []
+    for t, l in a_entries:
+        out[t] = [l]
+        order.append(t)
+    for t, l in b_entries:
+        if t in out:
+            out[t].append(l)
+        else:
+            out[t] = [l]
+            order.append(t)
+    return [(t, sep.join(out[t])) for t in sorted(order)]
